@@ -255,12 +255,19 @@ func (c *genCtx) gen(depth int, nn, incap bool) *Expr {
 			switch c.draw(0, 4, "parskind") {
 			case 0:
 				e.S = "R" // the rewinding kind (PTokR)
-				if rapid.Bool().Draw(c.t, "rewindshape") {
+				switch c.draw(0, 2, "rewindshape") {
+				case 1:
 					// a consumed token, an optional rewinding production, then a production that reads the lexer with
 					// Peek/Next: after a rewind over pending elided tokens it must still see the next real token
 					g := Group("?", e)
 					g.Style = c.draw(0, 5, "gstyle")
 					return Seq(c.capLeaf(), g, &Expr{Kind: KPars, Prod: -1, Uni: -1})
+				case 2:
+					// ... or nothing after it: if the production ends here, its token run ends right after the token
+					// consumed before the rewind
+					g := Group("?", e)
+					g.Style = c.draw(0, 5, "gstyle")
+					return Seq(c.capLeaf(), g)
 				}
 			case 1:
 				if c.g.Profile == "" {
